@@ -40,7 +40,7 @@ def floors(tier):
     return {"nontrivial": 100, "held:main": 150, "counter:same_seed_pairs": 300, "counter:different_seed_pairs": 120,
             "counter:mean_checks": 50, "counter:global_stream_consumed": 200, "class:stochastic": 80, "class:params": 50,
             "class:frozen": 25, "class:sampler-dict-args": 15, "class:sampler-tuple-args": 15, "class:simulate_param": 15, "class:solve_determ": 15, "class:solve_stochast": 15,
-            "class:assign-each": 10, "class:assign-once": 10, "class:assign-once+update": 20}
+            "class:parameter-as-magnitude": 15, "class:assign-each": 10, "class:assign-once": 10, "class:assign-once+update": 20}
 
 
 def fingerprint():
@@ -192,6 +192,10 @@ def run_case(rng, idx, tier, lane, ctx):
             pr = P[i % nP]
             rate = "%s*%s" % (pr, a) if (nS == 2 or rng.random() < 0.6) else "%s*%s*%s/(1+%s+%s)" % (pr, a, b, a, b)
             evs.append({"rate": rate, "trans": [["T", a, b, "1"]]})
+        if rng.random() < 0.35:
+            # the documented non-unit transition: the magnitude of one transition is a parameter (possibly a randomly drawn one)
+            rng.choice(evs)["trans"][0][3] = rng.choice(P)
+            cls.append("parameter-as-magnitude")
         spec = {"states": sts, "state_decl": "list", "params": P, "param_decl": "list", "derived": [], "events": evs, "odes": [],
                 "limits": [[0, None]] * nS}
         x0 = [float(v) for v in rng.sample(range(1, 13), nS)]   # pairwise distinct: never an equilibrium of the cyclic flows
